@@ -64,12 +64,15 @@ CLAIMED = {
          "Vec-based definitions on the implementation. permute is refuted (known finding, pinned by test_permute_1).",
          "6/C24", "Coq proof: unbounded soundness of append/member via the declarative semantics + exhaustive evaluation over a stated finite scope + all-modes instance oracle",
          "Completeness is proved only over the stated finite scope; rember/member1/distinct (which use !=) have bounded theorems only."),
- "C16": ("PARTIAL. Proved per propagator (ltefd, plusfd, minusfd, timesfd, diseqfd): with all operands ground the constraint is decided "
-         "exactly by the integer relation, and the repaired propagators re-run instead of storing themselves when their own pruning bound an "
-         "operand. The global statement (every answer of every program satisfies every posted constraint) is decided by brute-force "
-         "enumeration of the domain product on generated programs, with the answer multiset also compared with the model.",
-         "6/C16", "Coq proof of exact ground decisions per propagator + brute-force domain-product oracle + differential correspondence",
-         "The quiescence invariant over whole executions is not mechanised."),
+ "C16": ("PARTIAL. Proved for ALL states with well-formed domains, all operands (ground, partly bound, unbound) and every constraint kind "
+         "(ltefd, plusfd, minusfd, timesfd, diseqfd, distinctfd and the CLP(Z)/tree kinds): posting a constraint or a domain, and re-running the "
+         "store after the substitution grew, yield a state ALL of whose integer solutions satisfy the posted constraint and every constraint "
+         "and domain of the state before (FDDen: post_constraint_FC, post_domain_FD, run_constraints_F), whether the propagator decided, pruned, "
+         "dropped or bound; plus exact ground decisions per propagator. Not proved: the same for `==` between two domain variables "
+         "(process_extension_fd) and the lift through goals to whole programs; those are decided by brute-force enumeration of the domain "
+         "product on generated programs, with the answer multiset also compared with the model.",
+         "6/C16", "Coq proof of semantic soundness of every FD state operation (any operands) + exact ground decisions + brute-force domain-product oracle + differential correspondence",
+         "The == path on domain variables and the whole-program lift are not mechanised."),
  "C17": ("PARTIAL. Proved: every propagator's pruning interval contains the value the operand takes in any solution within the current "
          "domains (all signs; saturating arithmetic under the within-isize guard; corner-product hull for timesfd; quotient narrowing only for "
          "non-negative domains), intersecting keeps it, and labeling enumerates each domain value once. Completeness and uniqueness over "
